@@ -88,8 +88,20 @@ def run(ctx):
             rep.violation(dict(kind="correspondence", family="qeval", top=t[0]),
                           "model and implementation disagree on %s: impl %s, model %s" % (s, got, m),
                           dict(tree=t, text=s, impl=got, model=m), found_input=False)
+    # --- the same node evaluated repeatedly (a comprehension body runs once per element) must give the same value
+    rep_idx = [i for i, t in enumerate(trees) if t[0] in ("tag", "bin", "conv") and "|" in texts[i]][:150]
+    rep_texts = ["{%s : k in {1, 2, 3}}" % texts[i] for i in rep_idx]
+    rep_obs = C.run_impl(Q.impl_case, rep_texts, ctx["rundir"], limit=10.0)
+    for i, rt, ro in zip(rep_idx, rep_texts, rep_obs):
+        single = Q.impl_error_class(obs[i])
+        got = Q.impl_error_class(ro)
+        want = "A:[%s;%s;%s]" % (single, single, single) if not (single or "").startswith("E:") else None
+        if want is not None and got != want:
+            rep.violation(dict(kind="re-evaluation-changes-result", top=trees[i][0]),
+                          "C03 fails: %s evaluates to %s once but %s gives %s" % (texts[i], single, rt, got),
+                          dict(tree=trees[i], text=rt, impl=got, expected=want))
     rep.coverage.update(dict(
-        evaluations=len(trees), distinct_nontrivial=len(nontrivial),
+        evaluations=len(trees) + len(rep_texts), distinct_nontrivial=len(nontrivial),
         rule="quantity expression trees over live-resolved unit spellings (symbol, singular, plural, every prefix): exhaustive operator x kind pair (Q/Q, Q/N, N/Q, N/N) x dimension relation, all six comparisons, conversions among length/time spellings and back, compound signatures with negative exponents, offset units in every position (%d), plus seeded random trees; non-trivial = not a bare literal; distinct by text" % n_exh,
         exhaustive=False, samples=samples, outcome_histogram=hist, traces_validated_against_impl=len(trees),
         disagreements=disagreements, kernel_lane_cases=len(model) if model else 0, unit_spellings=len(units)))
